@@ -171,6 +171,49 @@ ISO = fun("datetime_isoformat", DtS, S)
 # io.BytesIO
 CONTENT = fun("BytesIO.content", BioS, S)
 
+# what a yielded result was produced from
+SrcS = ext_sort("ResultSource")
+SRC_MSG = fun("source_message", MsgS, SrcS)
+SRC_MAIL = fun("source_mail", MailS, SrcS)
+
+# mailparser.MailParser (parse_from_bytes)
+AttS = ext_sort("AttDict")
+MAILOF = fun("mailparser_parse_from_bytes", S, MailS)
+ML_N = fun("mail_addresses_n", MailS, S, I)            # mail.<to|cc|bcc|from_|reply_to>
+ML_NAME = fun("mail_addresses_name", MailS, S, I, S)
+ML_ADDR = fun("mail_addresses_addr", MailS, S, I, S)
+MH_NONE = fun("mail_header_none", MailS, S, B)         # mail.<subject|message_id|in_reply_to>
+MH = fun("mail_header", MailS, S, S)
+MDATE_NONE = fun("mail_date_none", MailS, B)
+MDATE = fun("mail_date", MailS, DtS)
+MT_N = fun("mail_text_n", MailS, S, I)                 # mail.text_plain / mail.text_html
+MT_AT = fun("mail_text_at", MailS, S, I, S)
+MA_N = fun("mail_attachments_n", MailS, I)
+MA_AT = fun("mail_attachments_at", MailS, I, AttS)
+AD_NONE = fun("att_value_none", AttS, S, B)            # attachment.get(key) is None
+AD_STR = fun("att_value", AttS, S, S)
+AD_ISB = fun("att_payload_is_bytes", AttS, B)
+AD_BIN = fun("att_binary", AttS, B)
+ATT_BYTES = fun("att_exact_bytes", AttS, S)            # the attachment's decoded content (what the statement calls its exact bytes)
+
+
+def att_payload_truthy(a):
+    p = z3.StringVal("payload")
+    return z3.And(z3.Not(AD_NONE(a, p)), z3.Length(AD_STR(a, p)) > 0)
+
+
+def att_bytes_contract(a):
+    """ASSUMED contract of mailparser's attachment dict: how `payload`/`binary` represent the attachment's bytes.
+    binary: payload is the base64 text of the bytes; otherwise payload is the text (str) whose UTF-8 encoding is the content,
+    or the bytes themselves; no payload: empty content."""
+    pay = AD_STR(a, z3.StringVal("payload"))
+    t = att_payload_truthy(a)
+    return z3.And(
+        z3.Implies(z3.Not(t), z3.If(AD_BIN(a), ATT_BYTES(a) == B64D(EMPTY), ATT_BYTES(a) == EMPTY)),
+        z3.Implies(z3.And(t, AD_BIN(a)), ATT_BYTES(a) == B64D(pay)),
+        z3.Implies(z3.And(t, z3.Not(AD_BIN(a)), z3.Not(AD_ISB(a))), ATT_BYTES(a) == ENC_IGN(pay, z3.StringVal("utf-8"))),
+        z3.Implies(z3.And(t, z3.Not(AD_BIN(a)), AD_ISB(a)), ATT_BYTES(a) == pay))
+
 
 def codec_known_term(cs_term):
     """KNOWN_CS with constants decided by the real codec registry (external-function CEGAR on concrete arguments)."""
@@ -351,6 +394,8 @@ class MailExecutor(UnitsExecutor):
     # ------------------------------------------------------------- optionals --
     def truth(self, st, v):
         if isinstance(v, VOpt):
+            if not isinstance(v.val, VStr):
+                return VBool(z3.Not(v.none))
             return VBool(z3.And(z3.Not(v.none), z3.Length(v.val.t) > 0))
         if isinstance(v, VRef) and st.obj(v.ref).kind == "alist":
             return VBool(st.obj(v.ref).data.length > 0)
@@ -589,13 +634,13 @@ class MailExecutor(UnitsExecutor):
         super().y_havoc(st)
         n = z3.Int(fresh_name("YC.len"))
         st.assume(n >= 0)
-        st.ghost["YC"] = (n, z3.Const(fresh_name("YC.src"), z3.ArraySort(I, MsgS)), z3.Const(fresh_name("YC.ok"), z3.ArraySort(I, B)))
+        st.ghost["YC"] = (n, z3.Const(fresh_name("YC.src"), z3.ArraySort(I, SrcS)), z3.Const(fresh_name("YC.ok"), z3.ArraySort(I, B)))
 
     # ---------------------------------------------------------------- yields --
     def yc_get(self, st):
         y = st.ghost.get("YC")
         if y is None:
-            y = (z3.IntVal(0), z3.Const(fresh_name("YC.src"), z3.ArraySort(I, MsgS)), z3.Const(fresh_name("YC.ok"), z3.ArraySort(I, B)))
+            y = (z3.IntVal(0), z3.Const(fresh_name("YC.src"), z3.ArraySort(I, SrcS)), z3.Const(fresh_name("YC.ok"), z3.ArraySort(I, B)))
             st.ghost["YC"] = y
         return y
 
@@ -619,7 +664,7 @@ class MailExecutor(UnitsExecutor):
                 m, snap = rec
                 same = all(_same_v(st, _path_get(st, v, path), x) for path, x in snap)
                 return m, z3.BoolVal(bool(same))
-        return z3.Const(fresh_name("unknown_msg"), MsgS), z3.BoolVal(False)
+        return z3.Const(fresh_name("unknown_src"), SrcS), z3.BoolVal(False)
 
     def e_YieldFrom(self, n, st):
         out = []
@@ -971,6 +1016,7 @@ def install(reg):
             return [(st, VDyn(c, True))]
         return [(st, VDyn(z3.SubString(c, pos, z3.Length(c) - pos), True))]
 
+    reg.ext_models["io.BytesIO"] = new_bytesio
     reg.ext_models[("new", "io.BytesIO")] = new_bytesio
     reg.ext_models[("new", "BytesIO")] = new_bytesio
     reg.method_models[("BytesIO", "read")] = m_read
@@ -982,3 +1028,66 @@ def install(reg):
         return [(st, VDyn(B64D(bytes_term(args[0])), True))]
 
     reg.ext_models["base64.b64decode"] = m_b64decode
+
+    # ---- mailparser ------------------------------------------------------------------
+    def m_parse_from_bytes(ex, st, args, kwargs, node):
+        """mailparser.parse_from_bytes(b): ASSUMED -- may raise anything (EXC-ANY), else a MailParser view of the message."""
+        ex.exc_any(st.fork(), "mailparser.parse_from_bytes")
+        return [(st, VExt("Mail", MAILOF(bytes_term(args[0]))))]
+
+    reg.ext_models["mailparser.parse_from_bytes"] = m_parse_from_bytes
+
+    def addr_attr(field):
+        def a(ex, st, obj):
+            """mail.<field>: ASSUMED -- a list of (display name, address) pairs of str, decoded, every entry carrying an address
+            (mailparser skips entries without one)."""
+            f = z3.StringVal(field)
+            m = obj.t
+            k = z3.Int("k!ml")
+            st.assume(z3.And(ML_N(m, f) >= 0, z3.ForAll([k], z3.Implies(z3.And(k >= 0, k < ML_N(m, f)), z3.Length(ML_ADDR(m, f, k)) > 0),
+                                                      patterns=[ML_ADDR(m, f, k)])))
+            return VSeq(ML_N(m, f), lambda k: VTuple([VStr(ML_NAME(m, f, k)), VStr(ML_ADDR(m, f, k))]), "tuple")
+        return a
+
+    for field in ("from_", "to", "cc", "bcc", "reply_to"):
+        reg.attr_models[("Mail", field)] = addr_attr(field)
+
+    def hdr_attr(field):
+        return lambda ex, st, obj: VOpt(MH_NONE(obj.t, z3.StringVal(field)), VStr(MH(obj.t, z3.StringVal(field))))
+
+    for field in ("subject", "message_id", "in_reply_to"):
+        reg.attr_models[("Mail", field)] = hdr_attr(field)
+    reg.attr_models[("Mail", "date")] = lambda ex, st, obj: VOpt(MDATE_NONE(obj.t), VExt("datetime", MDATE(obj.t)))
+
+    def text_attr(field):
+        def a(ex, st, obj):
+            """mail.text_plain / text_html: ASSUMED -- a list of str (one per non-attachment part of that subtype)."""
+            f = z3.StringVal(field)
+            st.assume(MT_N(obj.t, f) >= 0)
+            return VSeq(MT_N(obj.t, f), lambda k: VStr(MT_AT(obj.t, f, k)), "str")
+        return a
+
+    reg.attr_models[("Mail", "text_plain")] = text_attr("text_plain")
+    reg.attr_models[("Mail", "text_html")] = text_attr("text_html")
+
+    def a_attachments(ex, st, obj):
+        st.assume(MA_N(obj.t) >= 0)
+        return VSeq(MA_N(obj.t), lambda k: VExt("AttDict", MA_AT(obj.t, k)), ("obj", "AttDict"))
+
+    reg.attr_models[("Mail", "attachments")] = a_attachments
+
+    def m_att_get(ex, st, obj, args, kwargs, node):
+        """attachment.get(key) of a mailparser attachment dict: filename / mail_content_type: str or None; payload: str or
+        bytes or None; binary: bool."""
+        key = args[0].const() if isinstance(args[0], VStr) else None
+        if key is None or len(args) != 1:
+            raise Unsupported(f"{ex.loc(node)} attachment.get with a non-constant key or a default")
+        a = obj.t
+        if key == "binary":
+            return [(st, VBool(AD_BIN(a)))]
+        if key == "payload":
+            st.assume(att_bytes_contract(a))
+            return [(st, VOpt(AD_NONE(a, z3.StringVal(key)), VDyn(AD_STR(a, z3.StringVal(key)), AD_ISB(a))))]
+        return [(st, VOpt(AD_NONE(a, z3.StringVal(key)), VStr(AD_STR(a, z3.StringVal(key)))))]
+
+    reg.method_models[("AttDict", "get")] = m_att_get
